@@ -1,8 +1,8 @@
 \* C10 exhaustive: keys re-bound to the empty ContextValue ("clear a key"): shadowing consistent between GetValue and HasKey
-CONSTANTS NT = 1  NK = 2  NV = 1  NS = 0  MaxCtx = 3  MaxSet = 3  MaxDepth = 0  MaxMap = 2  MaxDrop = 0  WithEmpty = TRUE
+CONSTANTS NT = 1  NK = 2  NV = 1  NS = 0  MaxCtx = 3  MaxSet = 3  MaxDepth = 0  MaxMap = 2  MaxDrop = 0  MaxTok = 1  SampleToks = 0  WithEmpty = TRUE
           GenDepth = 0  DeepTarget = 99  Hist = FALSE  KeepFlags = FALSE  Dev = {}
 INIT Init
 NEXT Next
 VIEW View
 INVARIANTS TypeOK MostRecentBinding Shadowing StackFrames
-PROPERTIES Immutable AttachMakesCurrent DetachRestores ForeignTokenNoOp ScopeActivates ThreadsIsolated
+PROPERTIES Immutable AttachMakesCurrent DetachRestores ForeignTokenNoOp TokenLifetime ScopeActivates ThreadsIsolated
